@@ -651,8 +651,40 @@ def source_note(ctx):
                  "correspondence run" % ", ".join(changed))
 
 
+def reuse_phase(ctx):
+    """ONE post-processor object applied to inputs of different rank in turn (a 2-D matrix, a batch, a matrix again) with
+    negative axes: `apply` reads its configuration, it does not rewrite it - every result equals that of a fresh object"""
+    P = post_mod()
+    rs = np.random.RandomState(1501)
+    inputs = [rs.randint(-9, 9, size=(6, 3)).astype(np.float64), rs.randint(-9, 9, size=(2, 6, 3)).astype(np.float64),
+              rs.randint(-9, 9, size=(4, 3)).astype(np.float64), rs.randint(-9, 9, size=(2, 2, 6, 3)).astype(np.float64)]
+    makers = [("Stack(2, time_axis=-2)", lambda: P.Stack(2, time_axis=-2), {}),
+              ("Stack(3, time_axis=-2, pad_mode='edge')", lambda: P.Stack(3, time_axis=-2, pad_mode="edge"), {}),
+              ("Deltas(2, target_axis=-1)", lambda: P.Deltas(2, target_axis=-1), dict(axis=-2)),
+              ("Deltas(1, target_axis=-3, concatenate=False)", lambda: P.Deltas(1, target_axis=-3, concatenate=False), dict(axis=-2))]
+    for name, mk, kw in makers:
+        for order in ([0, 1, 2, 3], [3, 1, 0, 2], [1, 0, 1, 2]):
+            obj = mk()
+            for step, k in enumerate(order):
+                case = dict(kind="reuse", processor=name, shapes_in_turn=[list(inputs[j].shape) for j in order[: step + 1]], apply_kwargs=kw)
+                ctx.case(case, kind="reuse:" + name.split("(")[0])
+                try:
+                    got = obj.apply(inputs[k].copy(), **kw)
+                    want = mk().apply(inputs[k].copy(), **kw)
+                except Exception as e:
+                    ctx.violation(case, "a result", "%s: %s" % (type(e).__name__, str(e)[:150]), "apply on a re-used object raises",
+                                  tags=dict(clause="raises", where="reuse"))
+                    break
+                if got.shape != want.shape or not np.array_equal(got, want):
+                    ctx.violation(case, list(want.shape), list(got.shape) if got.shape != want.shape else "values differ",
+                                  "a re-used post-processor gives what a fresh one gives (2-D and N-D inputs alike, negative axes)",
+                                  tags=dict(clause="reuse_equals_fresh"))
+                    break
+
+
 def run(ctx, driver, with_driver=True):
     source_note(ctx)
+    reuse_phase(ctx)
     cases = cases_for(ctx)
     outs = [None] * len(cases)
     if with_driver:
